@@ -1114,3 +1114,108 @@ func socketProtocol(c *core.Ctx) {
 	}
 	c.Check(okUnlock, "the socket mutex is released on every exit", c.Pos(fn.Pos()), "", "no deferred unlock in the entry block")
 }
+
+func init() {
+	addRule("C13", &core.Rule{ID: "C13.reload-queue-wiring", Floor: 3, Run: reloadQueueWiring,
+		Doc: "Services.setup creates the reload queue exactly when a reload interval is configured (ReloadInterval > 0), with reloadHAProxy as worker and the reload limiter, keeps it in the Services object (it is started with the other runnables) and hands the same queue to the HAProxy instance as InstanceOptions.ReloadQueue."})
+	addRule("C12", &core.Rule{ID: "C12.reconcile-returns-error", Floor: 2, Run: reconcileReturnsError,
+		Doc: "Services.ReconcileIngress returns the very error of Instance.HAProxyUpdate (the reconciler requeues on it); the converters run before the update and the model mutex is held and released (deferred) around both."})
+}
+
+func reloadQueueWiring(c *core.Ctx) {
+	fn := c.Fn("controller/services", "Services.setup")
+	if fn == nil {
+		return
+	}
+	var mk *ssa.Call
+	for _, s := range core.Calls(fn, false) {
+		if strings.HasSuffix(core.CalleeName(s.Common()), "utils/workqueue.New[any]") || strings.Contains(core.CalleeName(s.Common()), "utils/workqueue.New") {
+			if strings.Contains(core.Key(s.Common().Args[1]), "ReloadHAProxyRateLimiter(") {
+				mk = s.Instr.(*ssa.Call)
+			}
+		}
+	}
+	if mk == nil {
+		c.Violated("the reload queue is created with the reload limiter", c.Pos(fn.Pos()), "no workqueue.New(…, ReloadHAProxyRateLimiter(…)) in Services.setup")
+		return
+	}
+	c.Check(guardedBy(mk, has("ReloadInterval > 0)"), true), "the reload queue exists exactly when an interval is configured", at(c, mk), "", "the queue is not created on the `ReloadInterval > 0` branch: with an interval configured reloads run unthrottled (no queue), or a zero interval gets a queue")
+	c.Check(strings.Contains(core.Key(mk.Call.Args[0]), "reloadHAProxy"), "the reload queue runs Services.reloadHAProxy", at(c, mk), "", "worker is "+core.Key(mk.Call.Args[0]))
+	c.Check(strings.HasSuffix(core.Key(mk.Call.Args[1]), "ReloadInterval)"), "the reload limiter is built from the configured interval", at(c, mk), "", core.Key(mk.Call.Args[1]))
+	// flows to s.reloadQueue and InstanceOptions.ReloadQueue
+	flows := func(v ssa.Value) bool {
+		seen := map[ssa.Value]bool{}
+		var walk func(x ssa.Value) bool
+		walk = func(x ssa.Value) bool {
+			if x == ssa.Value(mk) {
+				return true
+			}
+			if seen[x] {
+				return false
+			}
+			seen[x] = true
+			switch y := x.(type) {
+			case *ssa.Phi:
+				for _, e := range y.Edges {
+					if walk(e) {
+						return true
+					}
+				}
+			case *ssa.MakeInterface:
+				return walk(y.X)
+			case *ssa.ChangeInterface:
+				return walk(y.X)
+			}
+			return false
+		}
+		return walk(v)
+	}
+	okField, okOpt := false, false
+	for _, b := range fn.Blocks {
+		for _, in := range b.Instrs {
+			st, ok := in.(*ssa.Store)
+			if !ok {
+				continue
+			}
+			o, f := core.FieldOf(st.Addr)
+			if f == "reloadQueue" && strings.HasSuffix(o, "services.Services") && flows(st.Val) {
+				okField = true
+			}
+			if f == "ReloadQueue" && strings.HasSuffix(o, "haproxy.InstanceOptions") && flows(st.Val) {
+				okOpt = true
+			}
+		}
+	}
+	c.Check(okField, "the reload queue is kept (and started) by Services", c.Pos(fn.Pos()), "", "s.reloadQueue does not receive the created queue: nothing runs it")
+	c.Check(okOpt, "the instance enqueues its reloads on that queue", c.Pos(fn.Pos()), "", "InstanceOptions.ReloadQueue does not receive the created queue: HAProxyUpdate reloads directly")
+}
+
+func reconcileReturnsError(c *core.Ctx) {
+	fn := c.Fn("controller/services", "Services.ReconcileIngress")
+	if fn == nil {
+		return
+	}
+	var upd, conv ssa.Instruction
+	for _, s := range core.Calls(fn, false) {
+		cc := s.Common()
+		if cc.IsInvoke() && cc.Method.Name() == "HAProxyUpdate" {
+			upd = s.Instr
+		}
+		if cc.IsInvoke() && cc.Method.Name() == "Sync" {
+			conv = s.Instr
+		}
+	}
+	if upd == nil || conv == nil {
+		c.Violated("ReconcileIngress converts then updates", c.Pos(fn.Pos()), "Sync or HAProxyUpdate call missing")
+		return
+	}
+	n := 0
+	for _, r := range core.Returns(fn) {
+		n++
+		v := core.Results(r)[0]
+		c.Check(v == ssa.Value(upd.(*ssa.Call)), "ReconcileIngress returns the error of HAProxyUpdate", at(c, r), "", "returns `"+core.Key(v)+"`: a failed update is not reported, the reconciler does not requeue it")
+	}
+	c.Check(n == 1, "ReconcileIngress single exit", c.Pos(fn.Pos()), "", fmt.Sprint(n))
+	w := core.MustPrecede(fn, func(in ssa.Instruction) bool { return in == conv }, func(in ssa.Instruction) bool { return in == upd })
+	c.Check(w == nil, "the model is converted before it is applied", at(c, upd), "", "HAProxyUpdate can run before the converters")
+}
